@@ -208,6 +208,8 @@ def gen_world(w, n_membranes=(2, 4), small=False):
     for ci in range(len(csets)):
         if w.random() < 0.45:
             csets.append({"molar_copy_of": ci})
+            if w.random() < 0.3:
+                csets[-1]["alias_first"] = True      # the SAME curve object entered twice in the set (a curve given double weight)
     n_loaded = len([c for c in csets if not isinstance(c, dict)])
     for ci in range(n_loaded):
         if w.random() < 0.3:
@@ -754,6 +756,12 @@ def g_fit(o, M, best=None, allow_none=True, max_n=3, max_m=3):
         for key in ("n", "m"):
             if key in a and o.random() < 0.7:
                 a[key] = {"$npint": a[key]}           # numpy.int64 instead of int (orders taken from an array / a data frame)
+    if a.get("include_zero") and o.random() < 0.15:
+        a["include_zero"] = o.choice([1, {"$npbool": True}])      # a truthy flag that is not the bool True (1, numpy.bool_)
+    elif "include_zero" not in a and o.random() < 0.04:
+        a["include_zero"] = 0
+    if a.get("component_index") in (0, 1) and o.random() < 0.1:
+        a["component_index"] = {"$npint": a["component_index"]}
     return {"fn": "find_best_fit" if best else "fit", "args": a}
 
 
@@ -836,8 +844,18 @@ class Violation(Exception):
         self.detail = detail
 
 
-def op_key(op):
-    return digest({k: v for k, v in op.items() if k not in ("id", "clock")})
+def op_key(op, spec=None):
+    """Identity of a call for the repeat oracle.  For fits, the data object is identified by its CONTENT (the points, in
+    order) when it was built from stated points: two equal data sets are 'equal data' whichever object holds them."""
+    d = {k: v for k, v in op.items() if k not in ("id", "clock")}
+    if spec is not None and op.get("fn") in ("fit", "find_best_fit"):
+        r = (op.get("args") or {}).get("data")
+        if isinstance(r, dict) and isinstance(r.get("$"), list) and r["$"][0] == "measurements":
+            ms = spec["measurements"][r["$"][1]]
+            if "points" in ms:
+                d["args"] = dict(op["args"], data={"$points": digest(ms["points"])})
+                d.pop("loss_on", None)
+    return digest(d)
 
 
 def materialise(ctx, root, spec):
@@ -945,7 +963,7 @@ def execute(ctx, plan, stats=None, extra_oracles=None, prop="C20", names=None):
                 drifted = True
             executed.append((op, ro))
             # --- repeat oracle
-            key = op_key(op)
+            key = op_key(op, plan["world"])
             if key in seen:
                 st["repeat_checks"] += 1
                 if seen[key] != ho:
@@ -1216,7 +1234,7 @@ def prune_world(plan):
         if isinstance(c, dict) and "replicate_of" in c:
             cs.append(dict(c, replicate_of=remap["curve_sets"][c["replicate_of"]]))
         elif isinstance(c, dict):
-            cs.append({"molar_copy_of": remap["curve_sets"][c["molar_copy_of"]]})
+            cs.append(dict(c, molar_copy_of=remap["curve_sets"][c["molar_copy_of"]]))
         else:
             cs.append([remap["membranes"][c[0]], c[1]])
     new["curve_sets"] = cs
